@@ -322,3 +322,126 @@ pub fn panic_site(msg: &str) -> String {
     let file = file.split(':').next().unwrap_or(file);
     format!("panic:{h}@{file}")
 }
+
+// ---------------------------------------------------------------------------------------------
+// child-process isolation for sweeps that may abort the process (UB checks, heap corruption)
+
+impl Acc {
+    pub fn to_json(&self) -> Value {
+        json!({
+            "states": self.states,
+            "transitions": self.transitions,
+            "buckets": self.buckets,
+            "worst": self.worst.iter().map(|(k, v)| (k.clone(), json!([fnum(v.0), v.1]))).collect::<BTreeMap<_, _>>(),
+            "viols": self.viols.values().map(|v| json!({"key": v.key, "detail": v.detail, "case": v.case, "index": v.index})).collect::<Vec<_>>(),
+            "samples": self.samples,
+        })
+    }
+    pub fn from_json(v: &Value) -> Acc {
+        let mut a = Acc::default();
+        a.states = v["states"].as_u64().unwrap_or(0);
+        a.transitions = v["transitions"].as_u64().unwrap_or(0);
+        if let Some(b) = v["buckets"].as_object() {
+            for (k, n) in b {
+                a.buckets.insert(k.clone(), n.as_u64().unwrap_or(0));
+            }
+        }
+        if let Some(w) = v["worst"].as_object() {
+            for (k, e) in w {
+                let val = e[0].as_f64().unwrap_or_else(|| e[0].as_str().and_then(|s| s.parse().ok()).unwrap_or(f64::NAN));
+                a.worst.insert(k.clone(), (val, e[1].clone()));
+            }
+        }
+        if let Some(vs) = v["viols"].as_array() {
+            for x in vs {
+                let key = x["key"].as_str().unwrap().to_string();
+                a.viols.insert(key.clone(), Violation { key, detail: x["detail"].as_str().unwrap().to_string(), case: x["case"].clone(), index: x["index"].as_u64().unwrap() });
+            }
+        }
+        if let Some(s) = v["samples"].as_array() {
+            a.samples = s.clone();
+        }
+        a
+    }
+}
+
+pub struct Staged {
+    pub property: &'static str,
+    /// (stage name, number of cases)
+    pub stages: Vec<(String, u64)>,
+    /// run cases [lo,hi) of a stage (may use all cores); index offsets are global per stage
+    pub run: fn(Tier, usize, u64, u64) -> Acc,
+    /// replayable description of one case
+    pub case_of: fn(Tier, usize, u64) -> Value,
+}
+
+fn spawn_child(property: &str, tier: Tier, stage: usize, lo: u64, hi: u64) -> Result<Acc, String> {
+    let exe = std::env::current_exe().expect("current_exe");
+    let scratch = std::env::var("MC_SCRATCH").map(std::path::PathBuf::from).unwrap_or_else(|_| std::env::temp_dir());
+    let out = scratch.join(format!("mc-child-{}-{}-{}-{}-{}.json", std::process::id(), property, stage, lo, hi));
+    let _ = std::fs::remove_file(&out);
+    let status = std::process::Command::new(exe)
+        .args(["child", property, tier.name(), &stage.to_string(), &lo.to_string(), &hi.to_string()])
+        .arg(&out)
+        .stderr(std::process::Stdio::null())
+        .status()
+        .map_err(|e| format!("spawn failed: {e}"))?;
+    let res = if status.success() {
+        std::fs::read_to_string(&out).map_err(|e| format!("child report unreadable: {e}")).and_then(|s| serde_json::from_str::<Value>(&s).map_err(|e| format!("child report unparsable: {e}"))).map(|v| Acc::from_json(&v))
+    } else {
+        Err(format!("{status}"))
+    };
+    let _ = std::fs::remove_file(&out);
+    res
+}
+
+/// Run every stage in a child process. A child that dies is bisected down to the first single
+/// case that kills a child, which is reported as a violation (key `process-abort ...`).
+pub fn run_staged(tier: Tier, st: &Staged, rep: &mut Report) {
+    for (si, (name, total)) in st.stages.iter().enumerate() {
+        match spawn_child(st.property, tier, si, 0, *total) {
+            Ok(acc) => rep.acc.merge(acc),
+            Err(first) => {
+                // bisect [lo,hi): invariant = a child over [lo,hi) dies
+                let (mut lo, mut hi) = (0u64, *total);
+                let mut last = first;
+                while hi - lo > 1 {
+                    let mid = lo + (hi - lo) / 2;
+                    match spawn_child(st.property, tier, si, lo, mid) {
+                        Err(e) => {
+                            hi = mid;
+                            last = e;
+                        }
+                        Ok(_) => match spawn_child(st.property, tier, si, mid, hi) {
+                            Err(e) => {
+                                lo = mid;
+                                last = e;
+                            }
+                            Ok(_) => {
+                                // neither half dies alone: not a deterministic single-case abort
+                                rep.guard(&format!("stage '{name}': child died ({last}) but the failure could not be bisected to one case"), false);
+                                break;
+                            }
+                        },
+                    }
+                }
+                if hi - lo == 1 {
+                    let case = (st.case_of)(tier, si, lo);
+                    rep.acc.violation(
+                        lo,
+                        format!("process-abort stage={}", name.replace(' ', "_")),
+                        format!("the process running case {lo} of stage '{name}' died: {last}"),
+                        case,
+                    );
+                    rep.acc.bucket("child process died", 1);
+                }
+            }
+        }
+    }
+}
+
+/// Entry point of `mc child ...`.
+pub fn child_main(st: &Staged, tier: Tier, stage: usize, lo: u64, hi: u64, out: &str) {
+    let acc = (st.run)(tier, stage, lo, hi);
+    std::fs::write(out, serde_json::to_string(&acc.to_json()).unwrap()).expect("write child report");
+}
